@@ -187,6 +187,11 @@ fn inv(op: &str, c: i64, a: i64, b: i64, r: i64) {
     sched::log(json!({"e": "inv", "t": sched::tid() as i64, "op": op, "c": c, "a": a, "b": b, "r": r}));
 }
 
+/// The value passed into the pending operation (created or cloned inside it).
+fn arg(v: i64) {
+    sched::log(json!({"e": "arg", "t": sched::tid() as i64, "v": v}));
+}
+
 fn ret(op: &str, c: i64, v: i64, r: i64, own: i64) {
     let (steps, q) = sched::op_end();
     sched::log(json!({"e": "ret", "t": sched::tid() as i64, "op": op, "c": c, "v": v, "r": r, "n": steps as i64, "own": own}));
@@ -206,7 +211,7 @@ pub fn quiescent() {
     for n in nodes.iter().rev() {
         for v in n.fast_vals.iter().chain(std::iter::once(&n.slot_val)) {
             if *v != arc_swap::verif::DEBT_NONE {
-                slots.push(crate::vptr::obj_of_addr(*v).map(|o| o as i64).unwrap_or(-3));
+                slots.push(if *v == 0 { 0 } else { crate::vptr::obj_of_addr(*v).map(|o| o as i64).unwrap_or(-3) });
             }
         }
         if n.control_val != 0 {
@@ -308,11 +313,26 @@ where
     S::Protected: Send,
 {
     let w = &ctx.w;
+    // a target register that is still occupied is released first, as an operation of its own
+    match op {
+        Op::Load { g, .. } | Op::FromInner { g, .. } | Op::Cas { g, .. } => {
+            run_op_inner(ctx, &Op::DropG { g: *g })
+        }
+        Op::LoadFull { h, .. }
+        | Op::IntoInner { h, .. }
+        | Op::Swap { h, .. }
+        | Op::Rcu { h, .. }
+        | Op::IntoInnerC { h, .. } => run_op_inner(ctx, &Op::DropH { h: *h }),
+        Op::CacheNew { x, .. } => run_op_inner(ctx, &Op::CacheDrop { x: *x }),
+        Op::CacheClone { y, .. } => run_op_inner(ctx, &Op::CacheDrop { x: *y }),
+        _ => {}
+    }
     match op {
         Op::New { c, v } => {
+            inv("new", *c as i64, -1, 0, 0);
             let val = mk_src(w, v, -1);
             let id = val_id(&val);
-            inv("new", *c as i64, id, 0, 0);
+            arg(id);
             let cont = Arc::new(ArcSwapAny::<T, S>::new(val));
             let addr = cont.verif_ptr_addr();
             sched::with(|g| g.roles.add_storage(addr, *c as i64));
@@ -385,17 +405,17 @@ where
         }
         Op::Store { c, v } => {
             let Some(cont) = cont(w, *c) else { return };
+            inv("store", *c as i64, -1, 0, 0);
             let val = mk_src(w, v, -1);
-            let id = val_id(&val);
-            inv("store", *c as i64, id, 0, 0);
+            arg(val_id(&val));
             cont.store(val);
             ret("store", *c as i64, 0, 0, 0);
         }
         Op::Swap { c, v, h } => {
             let Some(cont) = cont(w, *c) else { return };
+            inv("swap", *c as i64, -1, 0, *h as i64);
             let val = mk_src(w, v, -1);
-            let id = val_id(&val);
-            inv("swap", *c as i64, id, 0, *h as i64);
+            arg(val_id(&val));
             let old = cont.swap(val);
             let oid = val_id(&old);
             let prev = put(&mut wl(w).handles, *h, old);
@@ -404,8 +424,7 @@ where
         }
         Op::Cas { c, cur, v, g } => {
             let Some(cont) = cont(w, *c) else { return };
-            let val = mk_src(w, v, -1);
-            let id = val_id(&val);
+            let id = -1i64;
             // resolve current
             let (cur_id, form): (i64, i64);
             let res: Guard<T, S>;
@@ -414,6 +433,8 @@ where
                     cur_id = 0;
                     form = 0;
                     inv("cas", *c as i64, cur_id, id, *g as i64);
+                    let val = mk_src(w, v, -1);
+                    arg(val_id(&val));
                     res = cont.compare_and_swap(std::ptr::null_mut::<crate::vptr::Obj>(), val);
                 }
                 Cur::H(h) | Cur::RawMut(h) | Cur::RawConst(h) => {
@@ -431,6 +452,8 @@ where
                     let hv = std::mem::ManuallyDrop::new(hv);
                     cur_id = val_id(&hv);
                     inv("cas", *c as i64, cur_id, id, *g as i64);
+                    let val = mk_src(w, v, -1);
+                    arg(val_id(&val));
                     match cur {
                         Cur::H(_) => {
                             form = 1;
@@ -450,23 +473,25 @@ where
                 }
                 Cur::G(gi) => {
                     let Some(guard) = take(&mut wl(w).guards, *gi) else {
-                        drop(val);
                         return;
                     };
                     cur_id = val_id(&guard);
                     form = 4;
                     inv("cas", *c as i64, cur_id, id, *g as i64);
                     sched::log(json!({"e": "inv", "t": sched::tid() as i64, "op": "drop_g_arg", "c": -1, "a": cur_id, "b": 0, "r": *gi as i64}));
+                    let val = mk_src(w, v, -1);
+                    arg(val_id(&val));
                     res = S::cas_g(&cont, guard, val);
                 }
                 Cur::Gref(gi) => {
                     let Some(guard) = take(&mut wl(w).guards, *gi) else {
-                        drop(val);
                         return;
                     };
                     cur_id = val_id(&guard);
                     form = 5;
                     inv("cas", *c as i64, cur_id, id, *g as i64);
+                    let val = mk_src(w, v, -1);
+                    arg(val_id(&val));
                     res = S::cas_gref(&cont, &guard, val);
                     put(&mut wl(w).guards, *gi, guard);
                 }
@@ -567,7 +592,7 @@ where
             if !cl {
                 return;
             }
-            inv("cache_clone", -1, 0, 0, *y as i64);
+            inv("cache_clone", -1, *x as i64, 0, *y as i64);
             let cache = take(&mut wl(w).caches, *x).unwrap();
             let c2 = cache.clone();
             let id = val_id(cache_peek(&c2));
